@@ -175,6 +175,9 @@ class VerifyAttrs(object):
                 intent = "inout"
             # XXX - Do hidden arguments need intent?
         else:
+            if not isinstance(intent, str):
+                raise RuntimeError(
+                    "Bad value for intent: {}".format(intent))
             intent = intent.lower()
             if intent in ["in", "out", "inout"]:
                 meta["intent"] = intent
